@@ -594,6 +594,11 @@ type Result struct {
 	//
 	// TODO(d.kolyshev): Get rid of this flag.
 	IsFiltered bool `json:",omitempty"`
+
+	// CanonNameNoData is true if CanonName is itself matched by the legacy
+	// rewrites but has no value for the requested type.  The answer is the
+	// CNAME only then, and the upstream must not be asked.
+	CanonNameNoData bool `json:"-"`
 }
 
 // Matched returns true if any match at all was found regardless of
@@ -699,7 +704,14 @@ func (d *DNSFilter) processRewrites(host string, qtype uint16) (res Result) {
 		rewrites, matched = findRewrites(d.conf.Rewrites, host, qtype)
 	}
 
+	// The final name is found among the rewrites, and not by a CNAME entry.
+	final := matched && (len(rewrites) == 0 || rewrites[0].Type != dns.TypeCNAME)
+
 	setRewriteResult(&res, host, rewrites, qtype)
+
+	if final && res.Reason == Rewritten && res.CanonName != "" && len(res.IPList) == 0 {
+		res.CanonNameNoData = true
+	}
 
 	return res
 }
